@@ -599,6 +599,32 @@ class LibGen:
             self.info[name] = {"leaves": leaves, "cls": cls, "depth": depth, "has_extends": bool(cls["extends"])}
             usable.append((name, name))
             self.tags.add("depth:%d" % depth)
+        if r.random() < 0.3:
+            # parallel sub-libraries: two packages, each with its own Base and a Source that extends "Base" by the
+            # relative name; one model uses both Sources
+            k = self.fresh("")
+
+            def comp(n, t="Real"):
+                return {"name": n, "type": t, "prefixes": [], "dims": [], "mods": [], "value": None}
+            pk = []
+            for pname, leafs in (("El" + k, [("v", "Real")]), ("Th" + k, [("T", "Real"), ("hot", "Boolean")])):
+                base = {"name": "Base" + k, "kind": "model", "alias": None, "extends": [], "classes": [], "ieqs": [], "connects": [],
+                        "comps": [comp(n, t) for n, t in leafs], "eqs": [("eq", var(leafs[0][0]), num(r.randint(2, 9)))]}
+                src = {"name": "Source" + k, "kind": "model", "alias": None, "extends": [{"name": "Base" + k, "mods": []}], "classes": [],
+                       "ieqs": [], "connects": [], "comps": [comp("q")],
+                       "eqs": [("eq", var("q"), ("bin", "*", num(r.randint(2, 9)), var(leafs[0][0])))]}
+                pk.append({"name": pname, "kind": "package", "alias": None, "extends": [], "classes": [base, src], "comps": [],
+                           "eqs": [], "ieqs": [], "connects": []})
+                self.info["%s.Base%s" % (pname, k)] = {"leaves": [], "cls": base, "depth": 1, "has_extends": False}
+                self.info["%s.Source%s" % (pname, k)] = {"leaves": [], "cls": src, "depth": 2, "has_extends": True}
+            order = [("es", "El%s.Source%s" % (k, k)), ("ts", "Th%s.Source%s" % (k, k))]
+            r.shuffle(order)
+            par = {"name": "Par" + k, "kind": "model", "alias": None, "extends": [], "classes": [], "ieqs": [], "connects": [],
+                   "comps": [comp(n, t) for n, t in order] + [comp("s")],
+                   "eqs": [("eq", var("s"), ("bin", "+", var("es.q"), var("ts.q")))]}
+            lib["classes"] += pk + [par]
+            self.info["Par" + k] = {"leaves": [], "cls": par, "depth": 3, "has_extends": False}
+            self.tags.add("parallel-sub-libraries-with-equal-class-names")
         self.ext_classes = {}
         if self.ext in ("ext:base-in-foreign-scope", "ext:scope-shadowing"):
             k = self.fresh("")
